@@ -4,7 +4,7 @@ from gen_util import *
 import pyref
 
 MODULES = ["WowSrp.Props.C16", "WowSrp.Props.Source.C16"]
-THEOREMS = ["C16_constants", "C16_spec_digits", "C16_digits", "C16_digits_zero", "C16_layout_spec", "C16_layout_perm", "C16_spec_layout", "C16_layout_mod", "C16_hash", "C16_none_iff", "C16_verify_iff", "C16_source_layout"]
+THEOREMS = ["C16_constants", "C16_spec_digits", "C16_digits", "C16_digits_zero", "C16_layout_spec", "C16_layout_perm", "C16_spec_layout", "C16_layout_mod", "C16_hash", "C16_none_iff", "C16_verify_iff", "C16_source_layout", "C16_source_no_hidden_state"]
 RULE = ("PINs of every digit count 0..10 (incl. 0, 999, 1000, 9999, u32::MAX), grid seeds incl. 0, 10!-1, 10!, u32::MAX and seeds congruent mod 10!, random "
         "salts; hash compared with an independent SHA1(cs | SHA1(ss | remapped ASCII digits)) over the Lehmer-code layout; verify with the right hash and "
         "with each of its 160 single-bit changes; seed sweeps with the 10-digit PIN 1023456789 (exposes the whole layout), digest on both sides "
@@ -44,7 +44,12 @@ def generate(rng, tier):
     for _ in range(n):
         d = rng.randint(1, 10)
         pin = rng.randrange(10 ** (d - 1), min(10 ** d, 1 << 32))
-        cs += hash_case(rng, pin, rng.getrandbits(32), "random-%d-digits" % d)
+        sd = rng.getrandbits(32)
+        cs += hash_case(rng, pin, sd, "random-%d-digits" % d)
+        if rng.random() < 0.1:
+            # a call with a related seed right afterwards on the same thread (the layout must depend on the seed of
+            # THIS call only): seed / 10!, seed mod 10!, seed + 10!, 0
+            cs += hash_case(rng, pin, rng.choice([sd // F10, sd % F10, (sd + F10) % (1 << 32), 0, 1]), "seed-history")
     # all 160 bit flips of one hash
     ss, c2 = rbytes(rng, 16), rbytes(rng, 16); h = pyref.pin_hash(24681357, 777, ss, c2)
     for i in range(160):
